@@ -67,7 +67,7 @@ def gen_cases(c):
 
     # 1. exhaustive: every input over {a, \n, \r} up to length N, every fragmentation
     #    (page 1, min_buffer 1: window of 2 bytes that must double and compact)
-    N = 8 if c.tier == "thorough" else 7
+    N = 8
     alpha = (0x61, 0x0a, 0x0d)
     for n in range(0, N + 1):
         comps = list(compositions(n))
@@ -76,8 +76,16 @@ def gen_cases(c):
             h = hx(src)
             for frag in comps:
                 add(1, "R 1 1 10 1 0 %s %s" % (h, script_of(frag)), "R", src, 10, True, "read/exhaustive-abc-len<=%d" % N)
+    if c.tier == "thorough":
+        # the same sweep up to length 7 with a 3-byte window
+        for n in range(0, 8):
+            comps = list(compositions(n))
+            for tup in itertools.product(alpha, repeat=n):
+                h = hx(bytes(tup))
+                for frag in comps:
+                    add(1, "R 1 2 10 1 0 %s %s" % (h, script_of(frag)), "R", bytes(tup), 10, True, "read/exhaustive-abc-len<=7-window3")
     # 2. the same inputs up to length 6 with other window sizes, APIs, no CR stripping, other delimiter
-    for n in range(0, 7):
+    for n in range(0, 7 if c.tier == "quick" else 8):
         comps = list(compositions(n))
         for tup in itertools.product(alpha, repeat=n):
             src = bytes(tup)
@@ -248,6 +256,8 @@ def main(argv):
             c.broken.append("build of the repo working tree failed: " + blog[-800:])
             return c.finish(rule="build failed")
         c.proofs()
+        if c.tier == "thorough":
+            coqchk(c, ["PP.Props.Properties_C02"])
         drv, dlog = build_driver("C02")
         impl = hx_bin("hx_filepiece")
         by_page = gen_cases(c)
@@ -262,17 +272,40 @@ def main(argv):
                 os.environ.pop("HX_PAGESIZE", None)
             else:
                 os.environ["HX_PAGESIZE"] = str(page)
+            # --- run the implementation harness and the extracted model on the same cases, in parallel chunks
+            from concurrent.futures import ThreadPoolExecutor
+            CH = 40000
+            chunks = [lines[i:i + CH] for i in range(0, len(lines), CH)]
+            with ThreadPoolExecutor(max_workers=6) as ex:
+                f_impl = [ex.submit(run_lines_resilient, impl, ch, 900) for ch in chunks]
+                f_model = [ex.submit(run_lines, drv, ch, 900) for ch in chunks] if drv else []
+                out, deaths = [], []
+                for k, f in enumerate(f_impl):
+                    o, d = f.result()
+                    out += o
+                    deaths += [(k * CH + idx, rc, err) for idx, rc, err in d]
+                mout = []
+                for f, ch in zip(f_model, chunks):
+                    rc, o, err = f.result()
+                    if len(o) != len(ch):
+                        c.broken.append("model driver produced %d lines for %d cases (rc %s) %s" % (len(o), len(ch), rc, err[-200:]))
+                        o = (o + [None] * len(ch))[:len(ch)]
+                    mout += o
+            for idx, rc, err in deaths:
+                c.violation("harness-died: util::FilePiece crashed or hung (rc %s) on case %r: %s" % (rc, lines[idx][:200], err[-200:]),
+                            {"case": lines[idx], "page": page, "rc": rc, "how": "HX_PAGESIZE=%d hx_filepiece <<< '%s'" % (page, lines[idx])})
             # --- correspondence: extracted model vs util::FilePiece (records, read() trace, mmap trace, EOF)
             if drv is None:
                 if not any("extraction" in b for b in c.broken):
                     c.broken.append("extraction/driver build failed: " + dlog[-600:])
             else:
-                correspond(c, "FilePiece model vs util/file_piece.cc (page %d)" % page, drv, impl, lines, chunk=200000)
+                dis = [(l, a, b) for l, a, b in zip(lines, mout, out) if a is not None and b is not None and a != b]
+                c.cov["traces_validated_against_impl"] += len(lines)
+                if dis:
+                    l, a, b = min(dis, key=lambda d: len(d[0]))
+                    c.broken.append("correspondence FilePiece model vs util/file_piece.cc (page %d): %d disagreement(s); smallest: case %r model=%r impl=%r" % (
+                        page, len(dis), l[:200], a[:200], b[:200]))
             # --- direct oracle on the implementation's output: Python split
-            out, deaths = run_lines_resilient(impl, lines, timeout=900)
-            for idx, rc, err in deaths:
-                c.violation("harness-died: util::FilePiece crashed or hung (rc %s) on case %r: %s" % (rc, lines[idx][:200], err[-200:]),
-                            {"case": lines[idx], "page": page, "rc": rc, "how": "HX_PAGESIZE=%d hx_filepiece <<< '%s'" % (page, lines[idx])})
             for line, (kind, src, delim, cr), o in zip(lines, metas, out):
                 if o is None:
                     continue
@@ -300,7 +333,7 @@ def main(argv):
     finally:
         shutil.rmtree(SCRATCH, ignore_errors=True)
     return c.finish(level="proof",
-                    rule="read() path: every input over {a,LF,CR} of length <= 7 (8 in thorough) under every fragmentation with a 2-byte window (page size 1 via the harness's sysconf), the same inputs with other windows/APIs/delimiters/no CR stripping/istream, random records around 1x/2x/4x the window with CR and delimiter on window edges under random Full/Short/EINTR scripts; mmap path: emulated mmap with page sizes 1-8 at every kind of start offset and total size around window multiples, real mmap with the real page size at sizes around page multiples; tool level: remove_long_lines 1000000000 over file/pipe/gz/bz2/xz/multi-member. distinct = distinct non-empty cases",
+                    rule="read() path: every input over {a,LF,CR} of length <= 8 under every fragmentation with a 2-byte window (page size 1 via the harness's sysconf), the same inputs with other windows/APIs/delimiters/no CR stripping/istream, random records around 1x/2x/4x the window with CR and delimiter on window edges under random Full/Short/EINTR scripts; mmap path: emulated mmap with page sizes 1-8 at every kind of start offset and total size around window multiples, real mmap with the real page size at sizes around page multiples; tool level: remove_long_lines 1000000000 over file/pipe/gz/bz2/xz/multi-member. distinct = distinct non-empty cases",
                     assumptions=["the OS is an oracle: each read() returns between 1 and the requested number of the next source bytes, or EINTR, and 0 only at end of input (and then for ever)",
                                  "mmap(offset, size>0) of a regular file shows exactly bytes [offset, offset+size) of the file; mmap of size 0 fails; the file does not change while it is read",
                                  "inputs starting with a gzip/bzip2/xz magic number are outside the model (ECompressed); decompressors are property C15",
